@@ -1,11 +1,12 @@
 #!/bin/bash
 # usage: tools/run_all.sh [quick|thorough] [seed] [first-id]  — runs every claimed check (from first-id on), prints one line each
-tier=${1:-quick}; seed=${2:-0}; from=${3:-C01}
+tier=${1:-quick}; seed=${2:-0}; from=${3:-C01}; upto=${4:-C99}
 cd "$(dirname "$0")/.."
 for p in $(/venv/bin/python -c "import json;print(' '.join(c['property_id'] for c in json.load(open('MANIFEST.json'))['checks']))"); do
   [[ "$p" < "$from" ]] && continue
+  [[ "$p" > "$upto" ]] && continue
   s=$(date +%s)
-  VERIF_SEED=$seed ./check $p --tier $tier > /tmp/runall_$p.log 2>&1; rc=$?
+  VERIF_SEED=$seed ./check $p --tier $tier > /tmp/runall_${tier}_$p.log 2>&1; rc=$?
   e=$(date +%s)
-  echo "$p rc=$rc $((e-s))s $(grep -c KNOWN-FINDING /tmp/runall_$p.log) known; $(grep -E 'tier=' /tmp/runall_$p.log | cut -c1-160) $(grep -m2 '^VIOLATION' /tmp/runall_$p.log | tr '\n' ' ')"
+  echo "$p rc=$rc $((e-s))s $(grep -c KNOWN-FINDING /tmp/runall_${tier}_$p.log) known; $(grep -E 'tier=' /tmp/runall_${tier}_$p.log | cut -c1-160) $(grep -m2 '^VIOLATION' /tmp/runall_${tier}_$p.log | tr '\n' ' ')"
 done
